@@ -24,6 +24,7 @@ use crate::pool::{Origin, World, rehash};
 use crate::seam_a::{ChainDefect, Found, block_on, chain_defects, found, logger};
 
 pub const KEY_CACHE: &str = "C03/client-cache-filled-before-parent-validated";
+pub const KEY_WRONG_START: &str = "C03/client-returns-certificate-with-another-hash-than-requested";
 pub const KEY_CACHE_HIT: &str = "C03/client-cache-hit-skips-check-of-served-certificate";
 
 pub struct MemberB {
@@ -580,4 +581,162 @@ pub fn explore(pool: &PoolB, w: &World, bounds: &Bounds, threads: usize) -> Seam
     rep.extra("B_depths", json!(per_depth));
     rep.extra("B_distinct_cache_states", json!(known.len()));
     SeamBResult { rep, found: all_found, states: known.len() as u64, calls }
+}
+
+
+// ------------------------------------------------------------------------------------------------
+// Entry point: `CertificateClient::verify_chain(hash)` — the caller names a hash, the (untrusted)
+// provider answers the very first request.
+// ------------------------------------------------------------------------------------------------
+
+pub const NO_SUCH_HASH: &str = "ffffffffffffffffffffffffffffffffffffffffffffffffffffffffffffffff";
+
+fn requested_label(pool: &PoolB, hash: &str) -> String {
+    match pool.default_answer.get(hash) {
+        Some(i) => format!("hash-of:{}", pool.label(*i)),
+        None => "<hash-of-no-certificate>".to_string(),
+    }
+}
+
+pub fn requested_from_label(pool: &PoolB, label: &str) -> Option<String> {
+    if label == "<hash-of-no-certificate>" {
+        return Some(NO_SUCH_HASH.to_string());
+    }
+    pool.find(label.strip_prefix("hash-of:")?).map(|i| pool.members[i].cert.hash.clone())
+}
+
+pub struct EntryResult {
+    /// Ok(hash field of the returned certificate)
+    pub returned: Result<String, String>,
+    pub requests: Vec<(String, Ans)>,
+}
+
+/// one real `CertificateClient::verify_chain(requested)` with an empty cache; `first` replaces the
+/// honest answer to the first request when given
+pub fn run_entry(pool: &PoolB, vkey_hex: &str, requested: &str, first: Option<Ans>) -> EntryResult {
+    let provider = Arc::new(Provider {
+        messages: pool.messages.clone(),
+        default_answer: pool.default_answer.clone(),
+        devs: first.map(|a| vec![(0, a)]).unwrap_or_default(),
+        log: Mutex::new(vec![]),
+    });
+    let r = catch(|| {
+        block_on(async {
+            let cache = Arc::new(MemoryCertificateVerifierCache::new(TimeDelta::days(3650)));
+            let verifier = MithrilCertificateVerifier::new(
+                provider.clone(),
+                vkey_hex,
+                FeedbackSender::new(&[]),
+                Some(cache as Arc<dyn CertificateVerifierCache>),
+                logger(),
+            )
+            .expect("client verifier");
+            let client = mithril_client::certificate_client::CertificateClient::new(
+                provider.clone(),
+                Arc::new(verifier) as Arc<dyn CertificateVerifier>,
+                logger(),
+            );
+            client.verify_chain(requested).await
+        })
+    });
+    let returned = match r {
+        Ok(Ok(c)) => Ok(c.hash),
+        Ok(Err(e)) => Err(format!("{e:#}")),
+        Err(p) => Err(format!("panic: {p}")),
+    };
+    EntryResult { returned, requests: provider.log.lock().unwrap().clone() }
+}
+
+/// judge one entry-point call: Ok(c) => c is the certificate that was asked for, and its chain is valid
+pub fn judge_entry(pool: &PoolB, requested: &str, res: &EntryResult) -> Option<(String, String)> {
+    let Ok(returned_hash) = &res.returned else { return None };
+    let served = match res.requests.first() {
+        Some((_, Ans::Member(i))) | Some((_, Ans::Disguised(i))) => *i,
+        _ => return Some(("C03/client-returns-certificate-nobody-served".into(), "verify_chain returned a certificate although the first request was not answered with one".into())),
+    };
+    let what = format!(
+        "CertificateClient::verify_chain({}) with the first request answered by {}",
+        requested_label(pool, requested),
+        ans_label(pool, res.requests[0].1)
+    );
+    if returned_hash != requested {
+        return Some((
+            KEY_WRONG_START.into(),
+            format!("{what} returned Ok(certificate) whose hash {returned_hash} is not the requested hash {requested}: the chain that was verified is not the chain of the certificate the caller named"),
+        ));
+    }
+    let disguised = matches!(res.requests[0].1, Ans::Disguised(i) if pool.members[i].cert.hash != requested);
+    if disguised {
+        return Some(("C03/certificate-accepted:hash-does-not-match-content".into(), format!("{what} returned Ok although the served content does not have the requested hash")));
+    }
+    pool.chain_defect[served].as_ref().map(|d| (d.key.clone(), format!("{what} returned Ok, but the hash-linked chain of that certificate is invalid: {}", d.text)))
+}
+
+pub fn entry_json(pool: &PoolB, requested: &str, first: Option<Ans>) -> Value {
+    json!({"seam": "B-entry", "pool_b": pool.members.len(), "requested": requested_label(pool, requested), "first_answer": first.map(|a| ans_label(pool, a))})
+}
+
+pub fn entry_first_from_json(pool: &PoolB, v: &Value) -> Option<Option<Ans>> {
+    if v.is_null() {
+        return Some(None);
+    }
+    Some(Some(match v.as_str()? {
+        "<not-found>" => Ans::NotFound,
+        "<error>" => Ans::Error,
+        l if l.starts_with("<under-the-requested-hash>") => Ans::Disguised(pool.find(&l["<under-the-requested-hash>".len()..])?),
+        l => Ans::Member(pool.find(l)?),
+    }))
+}
+
+/// every requested hash (every hash field of the pool and a hash of no certificate) x every answer to
+/// the first request (honest, any member, any hash-consistent member's content under the requested
+/// hash, not found); everything else served honestly, empty cache
+pub fn entry_point_sweep(pool: &PoolB, w: &World, threads: usize) -> (Report, Found) {
+    let vkey = w.genesis_vkey_hex.as_str();
+    let mut hashes: Vec<String> = pool.hashes.clone();
+    hashes.push(NO_SUCH_HASH.to_string());
+    let n = pool.members.len();
+    let parts = par_map(&hashes, threads, |_, h| {
+        let mut rep = Report::new("model_checking", "");
+        let mut fnd: Found = vec![];
+        let mut firsts: Vec<Option<Ans>> = vec![None];
+        firsts.extend((0..n).map(|i| Some(Ans::Member(i))));
+        firsts.extend((0..n).filter(|i| pool.facts[*i].hash_ok && pool.members[*i].cert.hash != *h).map(|i| Some(Ans::Disguised(i))));
+        firsts.push(Some(Ans::NotFound));
+        for first in firsts {
+            // the honest answer given as a deviation is the same call
+            if let Some(Ans::Member(i)) = first
+                && pool.default_answer.get(h) == Some(&i)
+            {
+                continue;
+            }
+            let res = run_entry(pool, vkey, h, first);
+            rep.eval();
+            rep.add_extra("B_entry_point_calls", 1);
+            match &res.returned {
+                Ok(rh) if rh == h => rep.outcome("B-entry:requested-certificate-accepted"),
+                Ok(_) => rep.outcome("B-entry:another-certificate-accepted"),
+                Err(_) => rep.outcome("B-entry:rejected"),
+            }
+            if res.returned.is_ok() {
+                rep.nontrivial(&("B-entry", h, first));
+            }
+            if let Some((key, what)) = judge_entry(pool, h, &res) {
+                found(&mut fnd, &key, what, entry_json(pool, h, first));
+            } else if first.is_none()
+                && res.returned.is_err()
+                && pool.default_answer.get(h).is_some_and(|i| pool.members[*i].honest_base)
+            {
+                found(&mut fnd, "C03/honest-chain-rejected-by-client", format!("CertificateClient::verify_chain({}) failed with an honest provider: {:?}", requested_label(pool, h), res.returned), entry_json(pool, h, first));
+            }
+        }
+        (rep, fnd)
+    });
+    let mut rep = Report::new("model_checking", "");
+    let mut all: Found = vec![];
+    for (r, f) in parts {
+        rep.merge(r);
+        all.extend(f);
+    }
+    (rep, all)
 }
